@@ -1,0 +1,9 @@
+//go:build verif
+// +build verif
+
+package selector
+
+// VerifStaticWeightLimits returns the unexported clamp limits of BuildStaticWeightList (build tag verif only; read-only).
+func VerifStaticWeightLimits() (int, int) {
+	return minStaticWeightLimit, maxStaticWeightLimit
+}
